@@ -1,0 +1,64 @@
+//go:build verif
+// +build verif
+
+// Contracts for package ldb, checked by /verif/cmd/govc (comment-only file; see /verif/DESIGN.md, C11).
+package ldb
+
+// D2: inner key layout  path ++ "_" ++ key, fresh, error exactly for an empty non-prefix key.
+//@ define wfBucket(b) = (b != nil && b.pathLen == len(b.path) && b.tx != nil)
+
+//@ func (*levelBucket).innerKey
+//@   props C11 C19
+//@   requires b != nil && b.pathLen == len(b.path)
+//@   ensures (err != nil) == (!asPrefix && len(key) == 0)
+//@   ensures err != nil ==> result == nil
+//@   ensures err == nil ==> fresh(result) && len(result) == b.pathLen + 1 + len(key)
+//@   ensures err == nil ==> bytesEq(result, 0, b.path, 0, b.pathLen) && result[b.pathLen] == '_'
+//@   ensures err == nil ==> bytesEq(result, b.pathLen + 1, key, 0, len(key))
+
+//@ func (*levelBucket).innerKeyForIterator
+//@   props C11 C19
+//@   requires b != nil && b.pathLen == len(b.path)
+//@   ensures fresh(result) && len(result) == b.pathLen + 1 + len(key)
+//@   ensures bytesEq(result, 0, b.path, 0, b.pathLen) && result[b.pathLen] == '_'
+//@   ensures bytesEq(result, b.pathLen + 1, key, 0, len(key))
+
+// D3: the write batch as an overlay log.  wfBatch: maps allocated, every put entry non-nil, sequence numbers
+// never exceed seqNo (so a later operation always has the larger number).
+//@ define wfBatch(b) = (b != nil && b.puts != nil && b.deletes != nil && (forall qs_ string :: has(b.puts, qs_) ==> b.puts[qs_] != nil && b.puts[qs_].seq <= b.seqNo) && (forall qs_ string :: has(b.deletes, qs_) ==> b.deletes[qs_] <= b.seqNo))
+//@ define isDeleted(b, s) = (has(b.deletes, s) && (!has(b.puts, s) || b.deletes[s] > b.puts[s].seq))
+//@ define isPut(b, s) = (has(b.puts, s) && (!has(b.deletes, s) || b.deletes[s] <= b.puts[s].seq))
+
+//@ func (*batch).Get
+//@   props C11 C19
+//@   requires wfBatch(b)
+//@   ensures deleted == isDeleted(b, strOf(k))
+//@   ensures isPut(b, strOf(k)) ==> sameSlice(v, b.puts[strOf(k)].data)
+//@   ensures !isPut(b, strOf(k)) ==> v == nil
+
+//@ func (*batch).Put
+//@   props C11 C19
+//@   requires wfBatch(b) && b.seqNo < 0xffffffff
+//@   modifies b, b.puts
+//@   ensures wfBatch(b) && b.seqNo == old(b.seqNo) + 1 && b.puts == old(b.puts) && b.deletes == old(b.deletes) && b.b == old(b.b)
+//@   ensures has(b.puts, strOf(k)) && b.puts[strOf(k)].seq == b.seqNo && sameSlice(b.puts[strOf(k)].data, v)
+//@   ensures forall qs_ string :: qs_ != strOf(k) ==> has(b.puts, qs_) == old(has(b.puts, qs_)) && b.puts[qs_] == old(b.puts[qs_])
+//@   ensures isPut(b, strOf(k))
+
+//@ func (*batch).Delete
+//@   props C11 C19
+//@   requires wfBatch(b) && b.seqNo < 0xffffffff
+//@   modifies b, b.deletes
+//@   ensures wfBatch(b) && b.seqNo == old(b.seqNo) + 1 && b.puts == old(b.puts) && b.deletes == old(b.deletes) && b.b == old(b.b)
+//@   ensures has(b.deletes, strOf(k)) && b.deletes[strOf(k)] == b.seqNo
+//@   ensures forall qs_ string :: qs_ != strOf(k) ==> has(b.deletes, qs_) == old(has(b.deletes, qs_)) && b.deletes[qs_] == old(b.deletes[qs_])
+//@   ensures isDeleted(b, strOf(k))
+
+// net puts: exactly the keys whose latest operation in this transaction is a put (and that match the prefix)
+//@ func (*batch).GetNetPutsByPrefix
+//@   props C11 C19
+//@   requires wfBatch(b)
+//@   ensures result != nil && fresh(result)
+//@   ensures forall qs_ string :: has(result, qs_) == (isPut(b, qs_) && (len(prefix) == 0 || hasPrefix(qs_, prefix)))
+//@   loop#1 invariant result != nil && fresh(result) && unchanged(prefix)
+//@   loop#1 invariant forall qs_ string :: has(result, qs_) == (visited(qs_) && isPut(b, qs_) && (len(prefix) == 0 || hasPrefix(qs_, prefix)))
